@@ -94,13 +94,9 @@ func (t *ParsedTable) ToMarkdown() string {
 	}
 	result += "\n"
 
-	// Data rows (skip first if it was header)
-	startRow := 1
-	if !t.HasHeader && len(t.Rows) > 1 {
-		startRow = 0
-	}
-
-	for i := startRow; i < len(t.Rows); i++ {
+	// Data rows: the first row has been written above the separator (markdown
+	// tables need a header line), so it must not be repeated here
+	for i := 1; i < len(t.Rows); i++ {
 		result += "|"
 		for _, cell := range t.Rows[i] {
 			result += " " + escapeMarkdown(cell.Text) + " |"
